@@ -98,7 +98,7 @@ func init() {
 		Technique: "bounded symbolic execution of go/ssa to QF_UFBV: inductive step of every Map/MapOf operation from an arbitrary valid table state (all slot occupancies, hashes, seeds), incl. grow/shrink/Clear inside the step; representation invariant re-established; vs reference map",
 		Bounds:    map[string]interface{}{"shapes(tableLen,chain,minTableLen)": "(1,1,1) (2,1,1) (1,2,1)", "ops_per_step": 1, "unwind_doCompute": 3, "unwind_default": 8},
 		Stubs:     commonStubs,
-		Outside:   []string{"tables longer than 2 buckets before / 4 after the step", "chains longer than 2 buckets in the pre-state", "size hints (constructor arithmetic) - separate harness"},
+		Outside:   []string{"tables longer than 2 buckets before / 4 after the step", "chains longer than 2 buckets in the pre-state of API steps (3 for the direct resize steps)", "size hints (constructor arithmetic) - separate harness"},
 		Quick:    func() []eng.Instance { return c11Instances(false) },
 		Thorough: func() []eng.Instance { return c11Instances(true) },
 	})
@@ -109,7 +109,13 @@ func init() {
 		ID:        "dbgpar",
 		Technique: "debug",
 		Quick: func() []eng.Instance {
-			is := resizePar("dbgpar/MapOf", true, 0, []int{0, 1, 2, 5, 6, 7}, 1, 1, 2)
+			is := []eng.Instance{
+				{Name: "dbgpar/step/MapOf/grow/chain3", Pkg: "xsync", Func: "VxH_MapOf_resizeStep", Args: []int64{0, 1, 3, 1, 1}, Cfg: eng.Config{DefaultUnwind: 8}},
+				{Name: "dbgpar/step/MapOf/shrink/chain2", Pkg: "xsync", Func: "VxH_MapOf_resizeStep", Args: []int64{1, 2, 2, 1, 1}, Cfg: eng.Config{DefaultUnwind: 8}},
+				{Name: "dbgpar/step/Map/grow/chain3", Pkg: "xsync", Func: "VxH_Map_resizeStep", Args: []int64{0, 1, 3, 1}, Cfg: eng.Config{DefaultUnwind: 8}},
+				{Name: "dbgpar/step/Map/shrink/chain2", Pkg: "xsync", Func: "VxH_Map_resizeStep", Args: []int64{1, 2, 2, 1}, Cfg: eng.Config{DefaultUnwind: 8}},
+			}
+			is = append(is, resizePar("dbgpar/MapOf", true, 0, []int{0, 1, 2, 5, 6, 7}, 1, 1, 2)...)
 			is = append(is, resizePar("dbgpar/MapOf", true, 1, []int{1, 7}, 2, 1, 2)...)
 			is = append(is, resizePar("dbgpar/Map", false, 0, []int{0, 1, 5, 7}, 1, 1, 2)...)
 			is = append(is, resizePar("dbgpar/Map", false, 1, []int{1}, 2, 0, 2)...)
@@ -212,6 +218,9 @@ func init() {
 				}
 				out = append(out, in)
 			}
+			// nobody is left waiting for a resize that has finished: a call that meets a grow in progress (waitForResize / wake-up, deadlock query)
+			out = append(out, resizePar("C13/Map", false, 0, []int{8}, 1, 1, 2)...)
+			out = append(out, resizePar("C13/MapOf", true, 0, []int{8}, 1, 1, 2)...)
 			return out
 		},
 		Thorough: func() []eng.Instance {
@@ -229,6 +238,9 @@ func init() {
 			// deadlock / lost wake-up queries: writers that meet a Clear (resize flag, resizeMu, resizeCond) and each other
 			out = append(out, mapPar2("C13/Map/deadlock", "VxH_Map_par2", [][2]int{{8, 1}, {8, 7}, {8, 8}, {1, 1}}, []int64{1, 1, 1, 1}, 2)...)
 			out = append(out, mapPar2("C13/MapOf/deadlock", "VxH_MapOf_par2", [][2]int{{8, 1}, {8, 7}, {8, 8}, {1, 1}, {1, 7}}, []int64{1, 1, 1, 1, 2}, 2)...)
+			// a shrink that is abandoned or completed while an insert is in flight: resizing flag clear, waiters woken
+			out = append(out, resizePar("C13/MapOf", true, 1, []int{1}, 2, 1, 2)...)
+			out = append(out, resizePar("C13/MapOf", true, 0, []int{1}, 1, 1, 2)...)
 			return out
 		},
 	})
@@ -331,6 +343,14 @@ func c11Instances(thorough bool) []eng.Instance {
 		is = append(is, mapOfStepInstances("C11/MapOf[int,int]/step", "VxH_MapOfII_step", [][5]int{{2, 1, 1, 2, 1}, {1, 2, 1, 2, 0}}, writes)...)
 		is = append(is, mapOfStepInstances("C11/MapOf[string,any]/step", "VxH_MapOfSA_step", [][5]int{{1, 1, 1, 3, 0}}, all)...)
 	}
+	// one whole-table grow / shrink started directly from an arbitrary valid table:
+	// chains of up to 3 buckets with holes and empty middle buckets (one symbolic slot per MapOf bucket)
+	is = append(is,
+		eng.Instance{Name: "C11/MapOf[int,int]/resize/grow/S(len=1,chain=3)", Pkg: "xsync", Func: "VxH_MapOf_resizeStep", Args: []int64{0, 1, 3, 1, 1}, Cfg: eng.Config{DefaultUnwind: 8}},
+		eng.Instance{Name: "C11/MapOf[int,int]/resize/shrink/S(len=2,chain=2)", Pkg: "xsync", Func: "VxH_MapOf_resizeStep", Args: []int64{1, 2, 2, 1, 1}, Cfg: eng.Config{DefaultUnwind: 8}},
+		eng.Instance{Name: "C11/Map/resize/grow/S(len=1,chain=3)", Pkg: "xsync", Func: "VxH_Map_resizeStep", Args: []int64{0, 1, 3, 1}, Cfg: eng.Config{DefaultUnwind: 8}},
+		eng.Instance{Name: "C11/Map/resize/shrink/S(len=2,chain=2)", Pkg: "xsync", Func: "VxH_Map_resizeStep", Args: []int64{1, 2, 2, 1}, Cfg: eng.Config{DefaultUnwind: 8}},
+	)
 	return is
 }
 
@@ -466,7 +486,7 @@ func init() {
 			is := mapPar2("C04/MapOf/par2", "VxH_MapOf_par2", allPairs(parOps), []int64{1, 1, 1, 1, 2}, 2)
 			is = append(is, mapPar2("C04/MapOf/par2+Clear", "VxH_MapOf_par2", [][2]int{{8, 0}, {8, 1}, {8, 7}, {8, 8}}, []int64{1, 1, 1, 1, 2}, 2)...)
 			is = append(is, resizePar("C04/MapOf", true, 0, []int{0, 2, 5, 6, 7}, 1, 1, 2)...)
-			is = append(is, resizePar("C04/MapOf", true, 1, []int{1, 7}, 2, 1, 2)...)
+			is = append(is, resizePar("C04/MapOf", true, 1, []int{7}, 2, 1, 2)...) // shrink||Store runs in the C08 and C13 thorough tiers
 			return is
 		},
 	})
@@ -620,7 +640,7 @@ func init() {
 		Technique: "bounded symbolic execution: the striped-counter sum is part of the representation invariant re-established by every Map/MapOf step (incl. grow recount and Clear); cache Count vs physically stored entries after every operation; quiescent Size after two-thread runs with symbolic schedules (insert || delete of one key)",
 		Bounds:    map[string]interface{}{"sequential": "as C11 shapes", "concurrent": "2 goroutines, 1 op each, <=3 context switches, 1 root bucket"},
 		Stubs:     commonStubs,
-		Outside:   []string{"writers overlapping a table copy (grow/shrink concurrent with the calls)"},
+		Outside:   []string{"writers overlapping a table copy other than one whole-table grow 1->2 / shrink 2->1 buckets with <=1 pre-state entry (thorough tier)"},
 		Quick: func() []eng.Instance {
 			var is []eng.Instance
 			for _, n := range []string{"Set", "Get", "GetOrSet", "GetAndRefresh", "Compute", "GetAndDelete", "DeleteExpired", "Clear"} {
@@ -638,6 +658,13 @@ func init() {
 			is = append(is, mapPar2("C08/Map/par2+Clear", "VxH_Map_par2", [][2]int{{8, 7}, {8, 1}}, []int64{1, 1, 1, 1}, 2)...)
 			is = append(is, mapPar2("C08/MapOf/par2+Clear", "VxH_MapOf_par2", [][2]int{{8, 7}}, []int64{1, 1, 1, 1, 2}, 2)...)
 			is = append(is, mapPar2("C08/MapOf/par2", "VxH_MapOf_par2", [][2]int{{1, 7}}, []int64{1, 1, 1, 11, 2}, 2)...)
+			return is
+		},
+		Thorough: func() []eng.Instance {
+			// quiescent Size after an insert/delete that overlaps a whole-table grow or shrink (recount vs in-flight writer)
+			is := resizePar("C08/MapOf", true, 1, []int{1, 7}, 2, 1, 2)
+			is = append(is, resizePar("C08/MapOf", true, 0, []int{1, 7}, 1, 1, 2)...)
+			is = append(is, resizePar("C08/Map", false, 0, []int{1}, 1, 0, 2)...)
 			return is
 		},
 	})
